@@ -32,7 +32,7 @@ MC_CFG = {
   ModOps <- LcModOps
   FaultSets = {{}, {0}, {1}}
   Fault2Sets = {{}, {0}}
-  SeidLits = {"0", "1", "9"}
+  SeidLits = {"0", "1", "9", "18446744073709551615"}
   Kinds = {"assoc", "est", "mod", "del", "report", "rptrsp", "takeover", "dup"}
   MaxSlots = 3
   MaxRt = 1
